@@ -105,3 +105,10 @@ export function classDiff(a, b) {
       .join(",");
   return `base-only[${only(ca, cb)}] rewritten-only[${only(cb, ca)}]`;
 }
+
+export function classSetDiff(a, b) {
+  const ca = classCounts(a),
+    cb = classCounts(b);
+  const only = (x, y) => [...x.keys()].filter((k) => x.get(k) > (y.get(k) || 0)).map((k) => k.replace("Runtype", "")).sort().join(",");
+  return { baseOnly: only(ca, cb), rewrittenOnly: only(cb, ca), text: `base-only{${only(ca, cb)}} rewritten-only{${only(cb, ca)}}` };
+}
